@@ -95,25 +95,25 @@ CLAIMED = {
 
 # additions of later rounds, appended to the level text (rounds 3-5; details in DESIGN.md §8.2c-e)
 ADDED = {
- "C01": "Σ also holds the digit-shape number family (every digit count 1..17 x every decimal-point position x 7 digit patterns, exponent-shifted, f32-widened readings, k/n quotients; bare, with units, as coordinates), size witnesses (every size 1..72 and around powers of two), all ordered pairs of a 400-value pool one after another and inside one document (history independence).",
- "C02": "As C01; additionally every value through six typed serde entry points (from_str / from_slice / from_reader::<T>, Option<T>, Vec<T> element, from_value::<T> with sorted members) and embedded in a user's own serde struct (Option / Vec / BTreeMap / tuple fields).",
- "C03": "Plus long tokens of every length 1..72 and around powers of two, all 256 byte values substituted / inserted at every position of short documents, timestamp texts around DST transitions, and flat inputs of 20 000 (thorough 100 000 / 300 000) items.",
- "C04": "Plus coordinate spelling deviations, the digit-shape number family and size witnesses in both directions.",
- "C05": "Every document with <= 1 deviation (thorough: every document) is also decoded through the typed entry point of its kind (six serde entry points) and must give the same value.",
- "C06": "Plus malformed texts, leap seconds, 1900-2200, transition texts with agreeing / disagreeing offsets, two timestamps in one document, the typed serde entry points on every emitted Hayson text, history pairs.",
- "C07": "Plus ref chains of every length 1..40 and around 64 / 100 / 256 / 1000 (rho shapes, every target), a unit sweep over every database unit, four resolver behaviours for unknown ids.",
- "C08": "Plus long chains for every n 1..72 ... 1000 and flat chains of 5 000 / 20 000 / 100 000 (thorough 300 000) operands printed / parsed / reprinted in child processes on a 2 MiB stack.",
- "C09": "Plus long tokens, all-256-byte substitution / insertion on short filters, flat filters of 20 000 (thorough 100 000) terms, four resolver behaviours for unknown ids.",
- "C10": "Plus Display and Debug under ~125 format specifications (width, fill, alignment, precision, sign, alternate, zero padding) for Value and each typed value, size witnesses, the digit-shape numbers.",
- "C11": "Plus size witnesses through readers of fixed chunk sizes, the whole iterator API of the lazy row iterator, coordinate spelling deviations and digit-shape numbers / coordinates.",
- "C12": "Plus the wide set (rank-based transitivity), named-tag laws over identifiers harvested from the library's source, and laws after mutation (29² dict contents x 8 in-place edit routes: ==, cmp, two hashers, set membership against a freshly built value).",
- "C13": "Plus ~200 shaped taxonomies (long chains, wide fans, stacked diamonds, lattices, re-defined defs) and Reflection::make over defs not closed under supertypes on all pairs.",
- "C14": "Plus C14-P (all ordered pairs / triples of queries regardless of cache snapshots), C14-V (volume), and C14-F: a SUPPLEMENTARY free-running pass, not exhaustive — 2-16 OS threads over one shared namespace with the genuine DashMap for a fixed time, every answer compared with the answer given alone (for shared state reached without a shard lock, which the cooperative scheduler cannot preempt).",
- "C15": "Plus positions, all ordered pairs of identifiers in one document, distinct entries never equal, and the wide substitution sweep (~480 characters of the Latin-1, Greek, super/subscript, letterlike and full-width blocks at every position of every identifier: must not be found).",
- "C16": "Plus 17 magnitudes incl. 1e±200, non-finite quantities through convert_to, and 15 operand pairs (NaN, ±INF, ±0, subnormal, overflow) through + - * /.",
- "C17": "Plus focused machines (list, dict, datetime, grid), 51 exotic values, the twins machine (values == cannot tell apart overwriting each other), every history also with a caller that never fetches the error message, borrow and bad-string sweeps.",
- "C18": "Plus machine histories under ASan, borrow / bad-string sweeps, and the long-error sweep (every text-taking entry point with malformed 1-/2-/3-/4-byte text at sizes around 60 ... 65 536, message fetched and destroyed).",
- "C19": "Plus wide records, lists of every length 1..72 ... 1000 in four shapes.",
+ "C01": "Σ also holds the digit-shape number family (every digit count 1..17 x every decimal-point position x 7 digit patterns, exponent-shifted, f32-widened readings, k/n quotients; bare, with units, as coordinates), size witnesses (every size 1..72 and around powers of two), all ordered pairs of a 400-value pool one after another and inside one document (history independence). Round 6: the text is also obtained through ToZinc::to_zinc into writers taking 1 / 3 bytes per call or reporting Interrupted; a clone encodes the same; 300 repetitions of each container's encode/decode (incl. encodes into failing writers, decodes of cut texts) before the pool and deep values.",
+ "C02": "As C01; additionally every value through six typed serde entry points (from_str / from_slice / from_reader::<T>, Option<T>, Vec<T> element, from_value::<T> with sorted members) and embedded in a user's own serde struct (Option / Vec / BTreeMap / tuple fields). Round 6: as C01 for serde_json::to_writer (accumulated failures), type-prefixed strings (`n:1 kW`, `r:id Dis` …).",
+ "C03": "Plus long tokens of every length 1..72 and around powers of two, all 256 byte values substituted / inserted at every position of short documents, timestamp texts around DST transitions, and flat inputs of 20 000 (thorough 100 000 / 300 000) items. Round 6: every escape form after every number 0..600 of plain bytes in four string positions.",
+ "C04": "Plus coordinate spelling deviations, the digit-shape number family and size witnesses in both directions. Round 6: direction 1 reads the text as short / interrupting writers receive it.",
+ "C05": "Every document with <= 1 deviation (thorough: every document) is also decoded through the typed entry point of its kind (six serde entry points) and must give the same value. Round 6: type-prefixed strings in the alphabet.",
+ "C06": "Plus malformed texts, leap seconds, 1900-2200, transition texts with agreeing / disagreeing offsets, two timestamps in one document, the typed serde entry points on every emitted Hayson text, history pairs. Round 6: a SUPPLEMENTARY free-running pass first (not exhaustive): 8-16 threads resolve rotations of 24 city names at once; every result must carry the zone asked for.",
+ "C07": "Plus ref chains of every length 1..40 and around 64 / 100 / 256 / 1000 (rho shapes, every target), a unit sweep over every database unit, four resolver behaviours for unknown ids. Round 6: `*==` combined with 12 other terms on the same path (and / or, both orders) in every ref world; one EvalContext reused.",
+ "C08": "Plus long chains for every n 1..72 ... 1000 and flat chains of 5 000 / 20 000 / 100 000 (thorough 300 000) operands printed / parsed / reprinted in child processes on a 2 MiB stack. Round 6: history independence of the parser over ~330 texts incl. every prefix of six multi-segment filters (pairs + 300 repetitions of failing texts).",
+ "C09": "Plus long tokens, all-256-byte substitution / insertion on short filters, flat filters of 20 000 (thorough 100 000) terms, four resolver behaviours for unknown ids. Round 6: evaluation records with LISTS of refs in ref tags (cycles through lists).",
+ "C10": "Plus Display and Debug under ~125 format specifications (width, fill, alignment, precision, sign, alternate, zero padding) for Value and each typed value, size witnesses, the digit-shape numbers. Round 6: writer scripts for both encoders (short writes, Interrupted, failure / accepts-nothing at each of the first 40 calls: nothing lost, errors reported, no endless loop); numbers whose unit is not a database entry (DEFAULT_UNIT, caller-built units).",
+ "C11": "Plus size witnesses through readers of fixed chunk sizes, the whole iterator API of the lazy row iterator, coordinate spelling deviations and digit-shape numbers / coordinates. Round 6: laziness bound at every row of grids of 1 000 … 20 000 (thorough 100 000) rows.",
+ "C12": "Plus the wide set (rank-based transitivity), named-tag laws over identifiers harvested from the library's source, and laws after mutation (29² dict contents x 8 in-place edit routes: ==, cmp, two hashers, set membership against a freshly built value). Round 6: instants before 1678 / after 2262 / year 1 and 9999 in the pool.",
+ "C13": "Plus ~200 shaped taxonomies (long chains, wide fans, stacked diamonds, lattices, re-defined defs) and Reflection::make over defs not closed under supertypes on all pairs. Round 6: every reflected record also with `id`, `mod`, `dis` (same id and mod throughout).",
+ "C14": "Plus C14-P (all ordered pairs / triples of queries regardless of cache snapshots), C14-V (volume), and C14-F: a SUPPLEMENTARY free-running pass, not exhaustive — 2-16 OS threads over one shared namespace with the genuine DashMap for a fixed time, every answer compared with the answer given alone (for shared state reached without a shard lock, which the cooperative scheduler cannot preempt). Round 6: C14-T — two namespaces with the same def names and different taxonomies alive together, every ordered pair of queries alternately on each, the variant's baseline from a fresh child process; C14-F runs last, only if the exhaustive parts found nothing, on a fresh namespace per round.",
+ "C15": "Plus positions, all ordered pairs of identifiers in one document, distinct entries never equal, and the wide substitution sweep (~480 characters of the Latin-1, Greek, super/subscript, letterlike and full-width blocks at every position of every identifier: must not be found). Round 6: Zinc text through short / interrupting writers.",
+ "C16": "Plus 17 magnitudes incl. 1e±200, non-finite quantities through convert_to, and 15 operand pairs (NaN, ±INF, ±0, subnormal, overflow) through + - * /. Round 6: ten magnitudes at the ends of the double range through convert_to (never refused for their size).",
+ "C17": "Plus focused machines (list, dict, datetime, grid), 51 exotic values, the twins machine (values == cannot tell apart overwriting each other), every history also with a caller that never fetches the error message, borrow and bad-string sweeps. Round 6: the thread sweep first (two strictly serialised threads, 5 x 5 failing calls x 5 modes: the error slot is per thread; a thread that failed and exited leaves nothing behind).",
+ "C18": "Plus machine histories under ASan, borrow / bad-string sweeps, and the long-error sweep (every text-taking entry point with malformed 1-/2-/3-/4-byte text at sizes around 60 ... 65 536, message fetched and destroyed). Round 6: the numeric sweep under ASan (every integer argument over its extremes: indices up to usize::MAX on containers of 0 / 1 / 3 entries through get / set / remove / row-at, time / date fields up to u32::MAX, years i32::MIN..MAX).",
+ "C19": "Plus wide records, lists of every length 1..72 ... 1000 in four shapes. Round 6: every public construction path of each kind (From / make_* / FromStr / FromIterator / dict! / Default) agrees; id() / safe_id() / ts().",
  "C20": "Plus a neighbour sweep over 106 characters, distant interactions, and re-entrant callbacks (chains of 1-3 records whose resolver / localiser call dis_macro / dict_to_dis / Dict::dis again).",
 }
 
